@@ -4,7 +4,7 @@ From Coq Require Import ZArith List.
 Import ListNotations.
 Open Scope Z_scope.
 
-(* fragment g_replace_none from sparse/numba_backend/_slicing.py:replace_none selector=None srchash=973b4f8935bd8754 *)
+(* fragment g_replace_none from sparse/numba_backend/_slicing.py:replace_none selector=None srchash=137bf9fde81d655b *)
 Definition g_replace_none (idx : pyv) (dim : pyv) : res pyv :=
 t1_ <- (py_not (VBool (isinst_slice idx))) ;;
 if cond t1_ then (
@@ -39,7 +39,7 @@ Ok (start)
 Ok (start)
 )) ;;
 stop <- (t10_ <- (py_is_none stop) ;; if cond t10_ then (
-stop <- Ok (VInt (-1)) ;;
+stop <- (t11_ <- (py_neg dim) ;; py_sub t11_ (VInt (1))) ;;
 Ok (stop)
 ) else (
 Ok (stop)
@@ -49,7 +49,7 @@ Ok (start, stop)
 Ok (VSlice start stop step)
 ).
 
-(* fragment g_posify_index from sparse/numba_backend/_slicing.py:posify_index selector=None srchash=4d30c89aa79b0d59 *)
+(* fragment g_posify_index from sparse/numba_backend/_slicing.py:posify_index selector=None srchash=6d7ae9a13bc23e83 *)
 Definition g_posify_index (shape : pyv) (ind : pyv) : res pyv :=
 t1_ <- Ok (VBool (isinst_tuple ind)) ;;
 if cond t1_ then (
@@ -78,13 +78,13 @@ Ok (start)
 ) else (
 Ok (start)
 )) ;;
-stop <- (t14_ <- (t15_ <- (t17_ <- (t16_ <- py_gt (VInt (0)) stop ;; if cond t16_ then py_ge stop step else Ok t16_) ;; py_not t17_) ;; if cond t15_ then (py_lt stop (VInt (0))) else Ok t15_) ;; if cond t14_ then (
+stop <- (t14_ <- (py_lt stop (VInt (0))) ;; if cond t14_ then (
 stop <- (py_add stop shape) ;;
 Ok (stop)
 ) else (
 Ok (stop)
 )) ;;
-(t18_ <- (attr_step ind) ;; Ok (VSlice start stop t18_))
+(t15_ <- (attr_step ind) ;; Ok (VSlice start stop t15_))
 ) else (
 Ok ind
 )
